@@ -153,6 +153,37 @@ def run(ctx):
             ctx.count("parse_err_" + type(e).__name__)
         add("CParse %s %s" % (ct.string_codes(s), res), {"kind": "parse", "s": s}, len(s) > 1)
 
+    # ---------------------------------------------------------------- mutator histories (set_pauli)
+    LCODE = {"I": (0, 0), "X": (0, 1), "Y": (1, 1), "Z": (1, 0)}
+    for h in range(600 if ctx.thorough else 150):
+        n = rng.randint(1, 5)
+        a = rand_p(rng, n)
+        ps = mk(*a)
+        edits = []
+        for _ in range(rng.randint(1, 6)):
+            i, l = rng.randrange(n), rng.choice("IXYZ")
+            if rng.random() < 0.5:   # prefer overwriting a non-identity site
+                nz = [k for k in range(n) if ps.get_pauli(k) != "I"]
+                if nz:
+                    i = rng.choice(nz)
+            ps.set_pauli(l, i)
+            edits.append((i, l))
+        desc = {"kind": "set_pauli", "a": a, "edits": edits}
+        ctx.count("set_pauli_len=%d" % len(edits))
+        M = dense(ps.as_matrix())
+        et = ct.lst([ct.pair(ct.nat(i), ct.pair(ct.b(LCODE[l][0]), ct.b(LCODE[l][1]))) for i, l in edits])
+        add("CSet %s %s %s %s" % (p3(*a), et, p3_of(ps), ct.zimat(M)), desc)
+        # oracle: letters as edited, matrix = reference of those letters, products still right
+        zz, xx = list(a[0]), list(a[1])
+        for i, l in edits:
+            zz[i], xx[i] = LCODE[l]
+        R = ref_matrix(zz, xx, a[2])
+        other = rand_p(rng, n)
+        bad = (not np.array_equal(M, R) or str(ps) != str(mk(zz, xx, a[2]))
+               or not np.array_equal(dense((ps @ mk(*other)).as_matrix()), R @ ref_matrix(*other)))
+        if bad:
+            ctx.fail("set_pauli:string-after-edit-wrong", dict(desc, other=other), "letters edited in place, matrix/product follow", str(ps))
+
     # ---------------------------------------------------------------- operator histories
     for h in range(400 if ctx.thorough else 80):
         n = rng.randint(1, 3)
@@ -161,7 +192,12 @@ def run(ctx):
         op = PauliOperator()
         added = np.zeros((2 ** n, 2 ** n), dtype=complex)
         ok_zero_only = True
+        step_bad = None
+
+        def opmat():
+            return dense(op.as_matrix()) if op.pstrings else np.zeros((2 ** n, 2 ** n), dtype=complex)
         for _ in range(rng.randint(1, 9)):
+            before = opmat()
             if rng.random() < 0.75:
                 a = rng.choice(pool)
                 w = rng.choice([0, 1, -1, 2, 1j, -2j, 1 + 1j, 3 - 4j, -1, 2.0, -3])
@@ -173,13 +209,25 @@ def run(ctx):
                 op.add_pauli_string(WeightedPauliString(mk(*a), w))
                 added = added + w * ref_matrix(*a)
                 ops.append("OAdd %s %s" % (p3(*a), ct.zi(w)))
+                # per-step oracle: insertion adds exactly w * matrix(a)
+                if step_bad is None and not np.array_equal(opmat(), before + w * ref_matrix(*a)):
+                    step_bad = "add step %d does not add w*P" % len(hist)
             else:
                 tol = rng.choice([0, 0, 0, 1, 2])
                 hist.append(("remove", tol))
                 if tol:
                     ok_zero_only = False
+                old_list = [(w_.paulis, w_.weight) for w_ in op.pstrings]
                 op.remove_zero_weight_strings(tol) if tol else op.remove_zero_weight_strings()
                 ops.append("ORemove %s" % ct.z(tol * tol))
+                # per-step oracle: only strings with |w| <= tol disappear, at least one stays,
+                # and the matrix changes by exactly the dropped strings (nothing for tol = 0)
+                kept = [id(w_.paulis) for w_ in op.pstrings]
+                dropped = [(p_, w__) for p_, w__ in old_list if id(p_) not in kept]
+                exp = before - sum((w__ * ref_matrix(p_.z, p_.x, p_.q) for p_, w__ in dropped), np.zeros_like(before))
+                if step_bad is None and (any(abs(w__) > tol for _, w__ in dropped) or (old_list and not op.pstrings)
+                                         or not np.array_equal(opmat(), exp)):
+                    step_bad = "remove step %d" % len(hist)
         final = [ct.pair(p3_of(w.paulis), ct.zi(w.weight)) for w in op.pstrings]
         if op.pstrings:
             M = dense(op.as_matrix())
@@ -191,6 +239,8 @@ def run(ctx):
         add("COp %s %s %s" % (ct.lst(ops), ct.lst(final), mt), desc)
         if M is not None and ok_zero_only and not np.array_equal(M, added):
             ctx.fail("operator:matrix-not-weighted-sum", desc, "sum of inserted weighted strings", "differs")
+        elif step_bad:
+            ctx.fail("operator:history-step-wrong", desc, "each insertion adds w*P; pruning drops only negligible strings", step_bad)
 
     # ---------------------------------------------------------------- raw constructor data
     def raw(rng, n):
@@ -223,6 +273,25 @@ def run(ctx):
             len(z) > 0)
         if valid != accepted:
             ctx.fail("ctor:accept-iff-01-arraylike", desc, valid, accepted)
+        if accepted and valid and len(z) <= 5:
+            # a string built from raw data (q possibly outside 0..3) must behave like the reduced one
+            R = ref_matrix(z, x, q % 4)
+            red = PauliString(list(z), list(x), q % 4)
+            try:
+                okk = (np.array_equal(dense(r.as_matrix()), R) and r == red
+                       and (len(z) == 0 or (r @ PauliString.identity(len(z))) == red)
+                       and PauliString.from_string(str(r)) == red
+                       and bool(r.is_hermitian()) == np.array_equal(R, R.conj().T))
+                t = PauliString(conv(z), conv(x), q)
+                f = t.refactor_sign()
+                okk = okk and t.q in (0, 1) and np.array_equal(f * dense(t.as_matrix()), R)
+                t = PauliString(conv(z), conv(x), q)
+                f = t.refactor_phase()
+                okk = okk and np.array_equal(f * dense(t.as_matrix()), R)
+            except Exception as e:
+                okk = False
+            if not okk:
+                ctx.fail("ctor:raw-q-not-equivalent-to-reduced", desc, "behaves like q mod 4", "differs / raises")
 
     dis = ctx.cases("pauli", HEADER, cases)
     for i, d in dis[:5]:
@@ -257,22 +326,55 @@ def replay(ctx, data):
     elif inp.get("kind") == "history":
         op = PauliOperator()
         added = 0
+        n = inp["n"]
+        zero_only = True
+
+        def opmat():
+            return dense(op.as_matrix()) if op.pstrings else np.zeros((2 ** n, 2 ** n), dtype=complex)
         for e in inp["ops"]:
+            before = opmat()
             if e[0] == "add":
-                w = complex(e[2]) if isinstance(e[2], str) else e[2]
+                w = complex(e[2].strip("()")) if isinstance(e[2], str) else e[2]
                 op.add_pauli_string(WeightedPauliString(PauliString(*e[1]), w))
                 added = added + w * ref_matrix(*e[1])
-            elif e[1] == 0:
-                op.remove_zero_weight_strings()
-        bad |= not np.array_equal(dense(op.as_matrix()), added)
+                bad |= not np.array_equal(opmat(), before + w * ref_matrix(*e[1]))
+            else:
+                zero_only &= e[1] == 0
+                op.remove_zero_weight_strings(e[1])
+                if e[1] == 0:
+                    bad |= not np.array_equal(opmat(), before)
+        if zero_only and op.pstrings:
+            bad |= not np.array_equal(dense(op.as_matrix()), added)
+    elif inp.get("kind") == "set_pauli":
+        LCODE = {"I": (0, 0), "X": (0, 1), "Y": (1, 1), "Z": (1, 0)}
+        a = inp["a"]
+        ps = PauliString(*a)
+        zz, xx = list(a[0]), list(a[1])
+        for i, l in inp["edits"]:
+            ps.set_pauli(l, i)
+            zz[i], xx[i] = LCODE[l]
+        R = ref_matrix(zz, xx, a[2])
+        bad |= not np.array_equal(dense(ps.as_matrix()), R)
+        if "other" in inp:
+            o = inp["other"]
+            bad |= not np.array_equal(dense((ps @ PauliString(*o)).as_matrix()), R @ ref_matrix(*o))
     elif inp.get("kind") == "ctor":
         z, x, q = inp["z"], inp["x"], inp["q"]
         valid = len(z) == len(x) and set(z) <= {0, 1} and set(x) <= {0, 1}
         try:
-            PauliString(z, x, q)
+            r = PauliString(z, x, q)
             acc = True
         except Exception:
             acc = False
         bad |= valid != acc
+        if acc and valid:
+            try:
+                red = PauliString(z, x, q % 4)
+                bad |= not (r == red) or not (PauliString.from_string(str(r)) == red)
+                t = PauliString(z, x, q)
+                t.refactor_sign()
+                bad |= t.q not in (0, 1)
+            except Exception:
+                bad = True
     if bad:
         ctx.fail(sig, inp, data.get("expected"), "still fails")
